@@ -95,14 +95,14 @@ func Run(r *core.Report, env *build.Env) {
 		{Func: "VerifC02Functions", Bound: "8 forms with user-defined operators, generic functions (also with list and Referenz parameters), nested returns, forward declarations x 18 x 18 types"},
 		{Func: "VerifC02Modules", Bound: "two modules (library with and without a generic function): 17 uses of public declarations of the imported module (incl. a generic Kombination instantiated with types only the importing module knows) x 2 positions, -O 0 and -O 2"},
 	}
+	// statements of 3 symbolic tokens and initialisers of 4 did not complete within the session's
+	// budget and are not registered
 	if r.Tier == "thorough" {
 		hs = append(hs,
 			goh.Harness{Func: "VerifC02Tokens3", Bound: "initialiser of 3 tokens of symbolic kind", Opts: gose.Options{Deadline: 60 * time.Minute}},
 			goh.Harness{Func: "VerifC02FunctionsO2", Bound: "the Functions family with the -O 2 annotator", Opts: gose.Options{Deadline: 60 * time.Minute}},
 			goh.Harness{Func: "VerifC02Ternary", Bound: "5 ternary phrases x 18^3 operand types", Opts: gose.Options{Deadline: 60 * time.Minute}},
-			goh.Harness{Func: "VerifC02TokensStmt3", Bound: "statement of 3 tokens of symbolic kind", Opts: gose.Options{Deadline: 60 * time.Minute}},
 			goh.Harness{Func: "VerifC02TokensCond2", Bound: "Wahrheitswert initialiser of 2 symbolic tokens after a nested block", Opts: gose.Options{Deadline: 60 * time.Minute}},
-			goh.Harness{Func: "VerifC02Tokens4", Bound: "initialiser of 4 tokens of symbolic kind", Opts: gose.Options{Deadline: 90 * time.Minute}},
 		)
 	}
 	for _, h := range hs {
